@@ -2,9 +2,9 @@ package main
 
 import (
 	"fmt"
-	"os"
 	"go/token"
 	"go/types"
+	"os"
 
 	"golang.org/x/tools/go/ssa"
 )
@@ -229,11 +229,12 @@ func (ix *idxEngine) cleanFromEntry(p *prover, in ssa.Instruction, inv structInv
 
 // invariantAtExits: fn writes the invariant's fields of ONE object in a way the simple rule (both stores side by
 // side) does not cover. It is accepted when
-//   (1) nothing that runs after the first of those stores can look at or write the two fields except fn's own
-//       code (callees are scanned transitively for any access to the fields), and
-//   (2) at every return that a store can reach, len(slice field) == int field + off is proved from the values the
-//       fields hold there: the last store on the way, or - for stores inside a loop - the header's load of the
-//       field together with the loop's exit condition (heapLoopFacts).
+//
+//	(1) nothing that runs after the first of those stores can look at or write the two fields except fn's own
+//	    code (callees are scanned transitively for any access to the fields), and
+//	(2) at every return that a store can reach, len(slice field) == int field + off is proved from the values the
+//	    fields hold there: the last store on the way, or - for stores inside a loop - the header's load of the
+//	    field together with the loop's exit condition (heapLoopFacts).
 func (ix *idxEngine) invariantAtExits(fn *ssa.Function, inv structInv, stores []fieldStore) bool {
 	p := ix.proverFor(fn)
 	if len(stores) == 0 {
@@ -447,7 +448,9 @@ func (ix *idxEngine) fieldIntAtExit(p *prover, inv structInv, base ssa.Value, re
 }
 
 // countedAppendLoop: the only store of slice field f sits in a loop that runs a counted number of times
-//   for c := M; c > 0; c-- { x.f = append(x.f, e) }      or      for i := 0; i < K; i++ { .. }
+//
+//	for c := M; c > 0; c-- { x.f = append(x.f, e) }      or      for i := 0; i < K; i++ { .. }
+//
 // and executes exactly once per iteration, appending exactly one element to the field's current value. Then after
 // the loop  len(x.f) = len(x.f before the loop) + (number of iterations), the count being M (resp. K) when that is
 // proved >= 0 at the loop's entry.
